@@ -702,7 +702,8 @@ def generate(incdir, outpath):
     L.append("Definition gen_hop_modes : list (string * list hop_mode) := [")
     rows = []
     for key in sorted(cls):
-        modes = [hop_mode(op) for op in cls[key]["ops"]]
+        # the order in which the overloads of operator() are declared means nothing: nullary overload first
+        modes = sorted([hop_mode(op) for op in cls[key]["ops"]], key=lambda m: (m != "NoArgs", m))
         rows.append("  (%s, [%s])" % (coq_str(key), "; ".join(modes)))
     L.append(";\n".join(rows))
     L.append("].")
@@ -761,7 +762,7 @@ def generate(incdir, outpath):
     if old != text:
         with open(outpath, "w") as fh:
             fh.write(text)
-    return {"visitors": vis, "classes": {k: {"fields": v["fields"], "modes": [hop_mode(o) for o in v["ops"]],
+    return {"visitors": vis, "classes": {k: {"fields": v["fields"], "modes": sorted([hop_mode(o) for o in v["ops"]], key=lambda m: (m != "NoArgs", m)),
                                              "slices": [s for o in v["ops"] for s in o["slices"]]} for k, v in cls.items()},
             "take": take, "casts": casts, "signal_connect": sigconn, "memfun_class": mfclass, "memfun_pass": [mf_pass, mf_verdicts], "globals": glob, "callsig": cs, "pp_conditionals": pp_conds, "deprecated_only": dep_only, "digest": hashlib.sha256(text.encode()).hexdigest()[:16], "changed": old != text}
 
